@@ -65,6 +65,41 @@ def run (rev : Bool) (hdrs : List Header) : List Step → BC → List String →
       | .error e => (showErr e :: acc).reverse
       | .ok line => run rev hdrs ss bc' (line :: acc)
 
+/-! `c15inv`: the finder-side hypotheses of the C15 theorems (`FinderSound`, `CF.Covers`, the cached chain is an
+upward path of the current finder), evaluated after every step of the history -/
+
+def upPathB (pl : Dict Nat) : List Nat → Bool
+  | [] => false
+  | [x] => (dget pl x).isNone
+  | x :: y :: r => dget pl x == some y && upPathB pl (y :: r)
+
+def soundB (cf : CF) : Bool :=
+  cf.trees.all (fun e => e.2.head? == some e.1 && upPathB cf.parent e.2) &&
+  cf.dbt.all (fun e => e.2.all fun b => match dget cf.trees b with
+    | some t => t.getLast? == some e.1
+    | none => false)
+
+def coversB (cf : CF) : Bool :=
+  cf.parent.all fun e => cf.trees.any fun tr =>
+    tr.2.contains e.1 && (match tr.2.getLast? with
+      | some top => (match dget cf.dbt top with
+        | some s => s.contains tr.1
+        | none => false)
+      | none => false)
+
+def cacheB (bc : BC) : Bool :=
+  match bc.cache with
+  | some c => upPathB bc.finder.parent (c ++ [bc.parentHash])
+  | none => true
+
+def runInv (rev : Bool) : List Step → BC → List String → List String
+  | [], _, acc => acc.reverse
+  | s :: ss, bc, acc =>
+    match bc.step rev s with
+    | .error e => (showErr e :: acc).reverse
+    | .ok (_, bc') =>
+      runInv rev ss bc' ((showBool (soundB bc'.finder) ++ showBool (coversB bc'.finder) ++ showBool (cacheB bc')) :: acc)
+
 def handle : Handler := fun op args =>
   match op, args with
   | "c15", [anchor, iter, hdrs, steps] => do
@@ -73,6 +108,13 @@ def handle : Handler := fun op args =>
     let hdrs ← if hdrs = "~" then some [] else (hdrs.splitOn ",").mapM parseHeader?
     let steps ← if steps = "~" then some [] else (steps.splitOn ",").mapM (parseStep? hdrs)
     let out := run rev hdrs steps (BC.new anchor) []
+    some ("ok " ++ (if out.isEmpty then "~" else "|".intercalate out))
+  | "c15inv", [anchor, iter, hdrs, steps] => do
+    let anchor ← parseNat? anchor
+    let rev := iter = "1"
+    let hdrs ← if hdrs = "~" then some [] else (hdrs.splitOn ",").mapM parseHeader?
+    let steps ← if steps = "~" then some [] else (steps.splitOn ",").mapM (parseStep? hdrs)
+    let out := runInv rev steps (BC.new anchor) []
     some ("ok " ++ (if out.isEmpty then "~" else "|".intercalate out))
   | _, _ => none
 
